@@ -72,7 +72,7 @@ def check_one(part, A, T, tname, reflect, npat, case):
     R = np.asarray(R, dtype=float)
     orth = np.abs(R @ R.T - np.eye(3)).max()
     part.dev("orthogonality", orth)
-    if R.shape != (3, 3) or orth > 1e-10:
+    if R.shape != (3, 3) or not (orth <= 1e-10):
         part.fail("not-orthogonal:" + key, "returned matrix is not orthogonal (dev %.3g)" % orth, case)
         return
     d = np.linalg.det(R)
@@ -83,9 +83,9 @@ def check_one(part, A, T, tname, reflect, npat, case):
     got = float(np.sqrt(np.vdot(diff, diff) / len(A)))
     ref, _ = horn.optimal_rmsd(A, B)
     part.dev("excess_rmsd", got - ref)
-    if got > ref + TOL:
+    if not (got <= ref + TOL):
         part.fail("suboptimal:" + key, "RMSD after alignment %.9f exceeds the optimum over proper rotations %.9f (%s)" % (got, ref, tname), case)
-    if not reflect and npat == "none" and got > TOL:
+    if not reflect and npat == "none" and not (got <= TOL):
         part.fail("congruent-not-superposed:" + key, "congruent sets are not superposed (rmsd %.3g)" % got, case)
     r2 = rmsd_points(A, B)
     if not (abs(r2 - got) <= 1e-10):
@@ -114,12 +114,12 @@ def check_one(part, A, T, tname, reflect, npat, case):
         # comparison is on what the statement fixes: a proper rotation reaching the optimal deviation, and the reported RMSD)
         okv = Rv.shape == (3, 3) and np.abs(Rv @ Rv.T - np.eye(3)).max() < 1e-10 and abs(np.linalg.det(Rv) - 1.0) < 1e-9
         gv = float(np.sqrt(np.vdot(A @ Rv - B, A @ Rv - B) / len(A))) if okv else np.inf
-        if not okv or gv > ref + TOL or not (abs(rv - r2) <= 1e-9):
+        if not okv or not (gv <= ref + TOL) or not (abs(rv - r2) <= 1e-9):
             part.fail("layout-dependence:%s" % lname, "the same point sets given as %s of one buffer: rotation reaches RMSD %.9f (optimum %.9f), rmsd_points %.9f vs %.9f"
                       % (lname, gv, ref, rv, r2), case)
     if reflect:
         imp = horn.improper_optimum(A, B)
-        if ref > 1e-6 and got < ref - 1e-6:
+        if not (ref <= 1e-6) and not (got >= ref - 1e-6):
             part.fail("mirror-superposed:" + key, "mirror images superposed with rmsd %.3g below the proper optimum %.3g (improper optimum %.3g)" % (got, ref, imp), case)
     part.outcome((reflect, npat, round(ref, 3) > 0, len(A) > 4))
 
@@ -195,7 +195,7 @@ def dimer_checks(part, seed):
             m2 = np.abs((pos - ca) @ R + ca + v - posb).max()
             part.dev("dimer_transform", min(m1, m2))
             part.outcome(("dimer", m1 < 1e-8, m2 < 1e-8))
-            if min(m1, m2) > 1e-8 or not (abs(np.linalg.det(R) - 1) <= 1e-9):
+            if not (min(m1, m2) <= 1e-8) or not (abs(np.linalg.det(R) - 1) <= 1e-9):
                 part.fail("dimer-transform", "Dimer.transform_ab does not reproduce the relating rotation %s (dev %.3g / %.3g)" % (tname, m1, m2), case)
             else:
                 part.count("dimer_convention_%s" % ("R.T" if m1 <= m2 else "R"))
@@ -264,7 +264,7 @@ def crystal_dimer_checks(part, seed):
                 got_t = float(np.sqrt(np.sum((pb @ R.T - pa) ** 2) / len(pa)))
                 ref, _ = horn.optimal_rmsd(pb, pa)
                 part.dev("crystal_dimer_excess", min(got, got_t) - ref)
-                if got > ref + TOL:
+                if not (got <= ref + TOL):
                     part.fail("crystal-dimer:suboptimal", "a dimer of crystal %s (analysed after %s): the stored rotation superposes b on a with RMSD %.6f, the optimum over proper rotations is %.6f"
                               % (k, list(order[:step]), got, ref), case)
                     break
